@@ -389,7 +389,18 @@ fn compile_op(name: &str, srcs: &[String], check: bool) -> String {
             let shape_json = shape.as_ref().map(|s| serde_json::to_string(s).unwrap());
             let linked = json_shape_build::verif_infer_json(srcs);
             let mut verdict = String::new();
-            if check && shape.is_none() {
+            // the file is what a user includes inside a module: the returned items behind a header that may hold
+            // comments, blank lines and `use` items only (no inner attribute, no inner doc comment)
+            let file_text = std::fs::read_to_string(&expected_file).unwrap_or_default();
+            let header_ok = file_text.strip_suffix(text.as_str()).is_some_and(|h| {
+                h.lines().all(|l| {
+                    let l = l.trim();
+                    l.is_empty() || (l.starts_with("//") && !l.starts_with("//!")) || (l.starts_with("use ") && l.ends_with(';'))
+                })
+            });
+            if !header_ok {
+                verdict = "violated: the file written is not the returned items behind a header of comments and use items".into();
+            } else if check && shape.is_none() {
                 verdict = "violated: compiled although inference rejects the sources".into();
             } else if check {
                 let files = listing(&out_dir);
